@@ -320,7 +320,7 @@ func extractC13() {
 	add := funcDecl(mf, "MultiError", "Add")
 	// Add unwraps: inside `if x, ok := err.(*MultiError); ok { … }` the elements of x (x.Errors() or x.errs,
 	// directly or through a local) are appended one by one (append with an ellipsis) and the body
-	// returns before the plain append of err itself.
+	// returns before the plain append of err itself (or that append sits in the else branch).
 	flattens := false
 	if add != nil {
 		ast.Inspect(add.Body, func(n ast.Node) bool {
@@ -360,7 +360,7 @@ func extractC13() {
 				}
 				return true
 			})
-			if spread && elems && returns {
+			if spread && elems && (returns || is.Else != nil) {
 				flattens = true
 			}
 			return true
